@@ -475,7 +475,13 @@ pub fn message(r: &mut Rng, sw: &Swarm, kind: Kind, v: &mut Vec<u8>) -> MsgTruth
                 }
             }
             v.extend_from_slice(format!("{:03}", t.code).as_bytes());
-            match r.below(6) {
+            // long mode favours the form with a (possibly very long) run of spaces before the reason
+            let form = if sw.long && r.chance(1, 3) { 4 } else { r.below(6) };
+            let lenient_sl = lenient_sl || (form == 4 && sw.long);
+            if form == 4 && sw.long {
+                t.strict = false;
+            }
+            match form {
                 0 => {} // no SP, no reason
                 1 => v.push(b' '),
                 2 => {
